@@ -63,3 +63,20 @@ package blockchain
 //@   ensures [gasBounded] st.gas <= st.initialGas
 //@   ensures [poolCredited] *st.gp == old(*st.gp) + st.gas
 //@   ensures [senderCredited] st.state.bal == upd(old(st.state.bal), msgFrom(st.msg), old(st.state.bal)[msgFrom(st.msg)] + st.gas * st.gasPrice.v)
+
+// ApplyTransaction as seen by the block loop. Derived from TransitionDb: a transaction that is
+// applied debits the pool by exactly the gas it used and adds that to the block's used gas; a
+// rejected one adds nothing to the used gas (the pool may already have been debited by buyGas).
+//@ trusted func ApplyTransaction(config *configs.ChainConfig, logger log.Logger, bc vm.ChainContext, gp *types.GasPool, statedb *state.StateDB, header *types.Header, tx *types.Transaction, usedGas *uint64, cfg kvm.Config) (receipt *types.Receipt, used uint64, err error)
+//@   requires gp != nil && usedGas != nil
+//@   modifies *
+//@   ensures err == nil ==> *gp == old(*gp) - used && *usedGas == old(*usedGas) + used && old(*gp) >= used
+//@   ensures err != nil ==> *usedGas == old(*usedGas) && *gp <= old(*gp)
+
+// The block loop: the gas pool decreases by exactly the gas used, also when a transaction is rejected
+// and skipped ("as if it had not been in the block").
+//@ func (bo *BlockOperations) commitBlock(state *state.StateDB, txs types.Transactions, header *types.Header, lastCommit stypes.LastCommitInfo, byzVals []stypes.Evidence) (vals []*types.Validator, info *types.BlockInfo, err error)
+//@   for C09
+//@   modifies *
+//@   loop 1:
+//@     invariant [poolExact] gasPool != nil && usedGas != nil && *gasPool + *usedGas == pre(*gasPool + *usedGas)
